@@ -18,7 +18,7 @@ def run(ctx):
     ctx.bounds.update({'variants': archs, 'work_item': 'job fields and manager contents fully symbolic; one query per (entry point, algorithm cell)', 'burst': '2 jobs per synchronous burst', 'cbmc_unwind': 4})
     ctx.assume('leaf reachability as in C06: functions without a C body get the body assert(false); FAILED <=> reachable for some job contents')
     ctx.outside += ['that a synchronous burst returns with ALL its jobs completed (the private submit+flush loops are explored only to unwinding depth 4 with nondeterministic managers)',
-                    'direct one-shot functions (GCM/GMAC/GHASH, SHA one-shot/one-block, ZUC/SNOW3G/KASUMI n-buffer wrappers, CRC, QUIC helpers, single-block CFB) versus the job path',
+                    'direct one-shot functions other than the ChaCha20-Poly1305 streaming calls (GCM/GMAC/GHASH, SHA one-shot/one-block, ZUC/SNOW3G/KASUMI n-buffer wrappers, CRC, QUIC helpers, single-block CFB) versus the job path',
                     'equality of the BYTES produced by distinct kernels reached from different entry points']
     bases = {}
     for r in pool_map(lambda a: (a, c06.build_variant(ctx, a)), archs):
@@ -106,6 +106,10 @@ def run(ctx):
             allowed = set(l for l in j24 if not helpers.match(l))
             ctx.add('WITNESS SUBMIT_CIPHER_BURST(CBC,key 16) held against the job-API cells of key 24 must mismatch [%s]' % a, 'violated' if (real and not real <= allowed) else 'discharged', 0, 'cbmc',
                     'burst: %s; wrong reference: %s' % (sorted(real), sorted(allowed)), expect='violated')
+    # ChaCha20-Poly1305: the direct init/update/finalize calls and the single job on the same work item both equal ONE specification
+    # (Poly1305 stream and keystream position) => they equal each other, whatever the segmentation
+    from props import c10
+    c10.run_chapoly(ctx, [3, 16, 21], [13], label='C09')
     # the no-check / check entry points share one implementation: checked by the ring harness (entries 1/2 and 7/8)
     ctx.samples.append('SUBMIT_CIPHER_BURST(CBC,enc,key 24) reaches {submit,flush}_job_aes192_enc: exactly the managers the job API cell uses')
 
